@@ -25,9 +25,12 @@ RULE = ("exhaustive small universe (coefficients in {-1,0,1,2}, lb<=3, la<=3) pl
         "a case is non-trivial when the impl yields at least one sample or raises; distinct = distinct JSON case")
 TRUSTED = [
     "hand-written Lean model ALV/Model/C04.lean of LinearFilter.__init__/__call__ (modelled, not verified: Poly "
-    "as a key-sorted association list, the exec'd generator as straight-line IR + sequential assignments)",
+    "as a key-sorted association list, the exec'd generator as straight-line IR with sequential assignments and "
+    "Python's left-associated '+'); inside Lean the model is proved equal to the specification end to end "
+    "(filterCall_eq_specCall), so the only unproved link is model <-> /repo, measured by this tie",
     "translator T3 in harness/props/c04.py: ast-parser of the generated generator source into the canonical IR "
-    "(constant folding in exact Fractions); cross-checked by the I/O differential on every case",
+    "(constant folding in exact Fractions); self-tested on seeded source edits (extra check) and cross-checked by "
+    "the I/O differential on every case",
     "float regime: running rounding-error bound computed in exact arithmetic by the harness (u = 2^-52)",
 ]
 ASSUMPTIONS = [
@@ -35,11 +38,16 @@ ASSUMPTIONS = [
     "numbers are modelled as elements of a field (exact rationals in the driver); where the impl itself injects "
     "binary floats (Fraction coefficients formatted as 'p/q' into the exec'd source, int/int true division, float "
     "coefficients) outputs are compared within a computed rounding-error bound",
-    "a memory shorter than the filter order is outside the property's quantifier; model and spec LEFT-pad it as coded",
+    "a memory shorter than the filter order is outside the property's quantifier; model and spec LEFT-pad it as "
+    "coded and a deviation there is reported as a broken correspondence, not as a violated property",
 ]
 MANIFEST = {
     "technique": "Lean 4 refinement proof (generated loop IR = bounded shifting state machine = difference "
-                 "equation over unbounded histories, any field, all lengths) + translator tie T3 + exact I/O differential",
+                 "equation over unbounded histories = the indexed sentence of the property, any field, all "
+                 "lengths; constructor arguments to outputs end to end) + translator tie T3 (captured source "
+                 "vs Lean compile, structural) + exact I/O differential",
+    "note": "26 theorems, no pending statement; D4 (Fraction gain formatted as '(expr) / p/q') recorded as known "
+            "with proposed_fixes/D4-fraction-gain.diff",
 }
 
 # ---------------------------------------------------------------------------------------------
@@ -766,3 +774,45 @@ def neighbours(c):
     yield dict(base, mem=None)
     lm = _lm_of(c["den"])
     yield dict(base, mem={"kind": "iter", "vals": ["3/1", "-4/1", "1/2", "5/1", "-1/3", "2/1", "7/1", "1/1", "-6/1"][:lm], "as": "list"})
+
+
+# ---------------------------------------------------------------------------------------------
+# translator self-test: T3 must see seeded edits of a generated source
+# ---------------------------------------------------------------------------------------------
+_SELFTEST_SRC = """def gen(seq, memory, zero):
+  m1 , m2 , = memory
+  d1 = d2 = d3 = zero
+  for d0 in seq:
+    m0 = (d0 + -d1 + 1/3 * d3 + -m1 + --5/2 * m2) / 2
+    yield m0
+    m2 = m1
+    m1 = m0
+    d3 = d2
+    d2 = d1
+    d1 = d0"""
+_SELFTEST_IR = {"kind": "loop", "nm": 2, "nd": 3,
+                "sum": [["var", "d", 0], ["neg", "d", 1], ["mul", "1/3", "d", 3], ["neg", "m", 1], ["mul", "5/2", "m", 2]],
+                "gain": ["div", 2],
+                "shifts": [["m", 2, "m", 1], ["m", 1, "m", 0], ["d", 3, "d", 2], ["d", 2, "d", 1], ["d", 1, "d", 0]]}
+_SELFTEST_EDITS = [
+    ("-d1", "d1"), ("1/3 * d3", "1/3 * d2"), ("+ -m1", "+ m1"), (") / 2", ") / 3"), (") / 2", ") / 2/1"),
+    ("    m2 = m1\n    m1 = m0", "    m1 = m0\n    m2 = m1"), ("    d3 = d2\n", ""), ("d1 = d0", "d1 = d1"),
+    ("--5/2", "-5/2"), ("m1 , m2 , = memory", "m2 , m1 , = memory"), ("d1 = d2 = d3 = zero", "d1 = d2 = zero"),
+    ("(d0 + ", "-(d0 + "), ("yield m0", "yield d0"), ("1/3", "1/4"),
+]
+
+
+def extra_checks(eng):
+    ok = parse_source(_SELFTEST_SRC) == _SELFTEST_IR
+    yield ("T3-parser-reference-source", ok, "parse_source gave %r" % (parse_source(_SELFTEST_SRC),))
+    blind = []
+    for old, new in _SELFTEST_EDITS:
+        assert old in _SELFTEST_SRC
+        if parse_source(_SELFTEST_SRC.replace(old, new, 1)) == _SELFTEST_IR:
+            blind.append((old, new))
+    yield ("T3-parser-sees-seeded-edits(%d)" % len(_SELFTEST_EDITS), not blind, "edits not seen: %r" % (blind,))
+    neg = parse_source("def gen(seq, memory, zero):\n  for d0 in seq:\n    m0 = -(d0)\n    yield m0")
+    pos = parse_source("def gen(seq, memory, zero):\n  for d0 in seq:\n    m0 = -d0\n    yield m0")
+    yield ("T3-parser-separates-gain-minus-from-atom-minus",
+           neg.get("gain") == ["negone"] and pos.get("gain") == ["one"] and pos.get("sum") == [["neg", "d", 0]],
+           "%r / %r" % (neg, pos))
